@@ -30,6 +30,11 @@ func readFileCached(name string) ([]byte, error) {
 func (fr *Frame) val(v ssa.Value) Val {
 	g := fr.g
 	if x, ok := fr.vals[v]; ok {
+		if x.Ptr != nil && x.Ptr.Buf && fr.curSt != nil {
+			if cur, ok := fr.curSt.cells[x.Ptr.Cell]; ok {
+				x.T = cur.T
+			}
+		}
 		return x
 	}
 	switch c := v.(type) {
@@ -196,6 +201,7 @@ func (g *Gen) execInstr(fr *Frame, st *State, in ssa.Instruction, r string) bool
 		key := g.structKey(x.X.Type())
 		g.structSort(x.X.Type(), stt)
 		fr.vals[x] = Val{T: fmt.Sprintf("(%s %s)", g.fieldSel(key, f.Name(), x.Field), sv.T), S: g.sortOf(f.Type()), Ty: f.Type()}
+		g.arrayLenFact(fr.vals[x])
 	case *ssa.IndexAddr:
 		fr.vals[x] = g.indexAddr(fr, st, x, r)
 	case *ssa.Index:
@@ -293,7 +299,11 @@ func (g *Gen) execInstr(fr *Frame, st *State, in ssa.Instruction, r string) bool
 	case *ssa.MakeSlice:
 		ln := g.toInt(fr.val(x.Len))
 		if g.sortOf(x.Type()) == "Str" {
-			fr.vals[x] = Val{T: fmt.Sprintf("(zeros %s)", ln), S: "Str", Ty: x.Type()}
+			id := fmt.Sprintf("%s.buf%s", fr.id, x.Name())
+			content := Val{T: fmt.Sprintf("(zeros %s)", ln), S: "Str", Ty: x.Type()}
+			g.setCell(st, id, content)
+			st.escaped[id] = true
+			fr.vals[x] = Val{T: content.T, S: "Str", Ty: x.Type(), Ptr: &Ptr{Kind: pCell, Cell: id, Ty: x.Type(), Buf: true}}
 		} else {
 			arr := g.newRef(fr.id + "mk")
 			cp := g.toInt(fr.val(x.Cap))
@@ -483,7 +493,7 @@ func (g *Gen) unop(fr *Frame, st *State, x *ssa.UnOp, r string) Val {
 		lv := g.loadPtr(st, p)
 		lv.Ty = x.Type()
 		g.preexisting(lv)
-		if lv.S == "Slice" || (lv.S == "Int" && !g.bv) {
+		if lv.S == "Slice" || lv.S == "Str" || (lv.S == "Int" && !g.bv) {
 			// slices read from memory are well formed; integers respect their type's range
 			if g.dry == 0 {
 				g.loadFacts(lv)
@@ -514,7 +524,18 @@ func (g *Gen) unop(fr *Frame, st *State, x *ssa.UnOp, r string) Val {
 	return g.freshVal(fr.id+"un", x.Type())
 }
 
+// arrayLenFact: a value of type [N]byte has exactly N bytes.
+func (g *Gen) arrayLenFact(v Val) {
+	if v.S != "Str" || v.Ty == nil || g.dry > 0 || strings.Contains(v.T, "!b") {
+		return
+	}
+	if a, ok := types.Unalias(v.Ty).Underlying().(*types.Array); ok {
+		g.vc.assume("", fmt.Sprintf("(= (slen %s) %d)", v.T, a.Len()))
+	}
+}
+
 func (g *Gen) loadFacts(v Val) {
+	g.arrayLenFact(v)
 	if v.S == "Slice" {
 		g.vc.assume("", fmt.Sprintf("(and (<= 0 (soff %s)) (<= 0 (slenS %s)) (<= (slenS %s) (scap %s)))", v.T, v.T, v.T, v.T))
 		return
@@ -795,12 +816,18 @@ func (g *Gen) equalVals(a, b Val, t types.Type) string {
 	}
 	if a.S == "Str" && t != nil {
 		if _, isSlice := types.Unalias(t).Underlying().(*types.Slice); isSlice {
-			// []byte == nil
-			if a.T == "empty$" {
-				return fmt.Sprintf("(isnil$ %s)", b.T)
+			// []byte == nil: nil-ness of an empty byte slice is not tracked (all empty byte strings are one value);
+			// the comparison is true for the literal zero value, false for non-empty slices and arbitrary otherwise
+			if a.T == "empty$" && b.T == "empty$" {
+				return "true"
 			}
-			if b.T == "empty$" {
-				return fmt.Sprintf("(isnil$ %s)", a.T)
+			if a.T == "empty$" || b.T == "empty$" {
+				other := b
+				if b.T == "empty$" {
+					other = a
+				}
+				nd := g.vc.freshConst("nilcmp", "Bool")
+				return fmt.Sprintf("(and (= (slen %s) 0) %s)", other.T, nd)
 			}
 		}
 		if a.T == "empty$" {
@@ -824,6 +851,9 @@ func (g *Gen) convert(fr *Frame, x *ssa.Convert) Val {
 	from, to := x.X.Type(), x.Type()
 	fs, ts := g.sortOf(from), g.sortOf(to)
 	if fs == "Str" && ts == "Str" {
+		_, fromString := types.Unalias(from).Underlying().(*types.Basic)
+		_, toSlice := types.Unalias(to).Underlying().(*types.Slice)
+		_, _ = fromString, toSlice
 		return Val{T: v.T, S: "Str", Ty: to}
 	}
 	fb, _ := types.Unalias(from).Underlying().(*types.Basic)
